@@ -31,6 +31,9 @@ ASSUMES = ["C01_engine_partial: that each of the five engines evaluates a captur
 COLS = ["x", "y", "z", "w"]
 # legal but unusual column names (every backend accepts them on the unchanged tree): empty, blank, keyword-like, quoted
 EXOTIC = ["", " ", "a b", "\u00fc", "x'y", "select", "0", "A", "x.y", "%s", "None", "count", "variant ", "mean_", "_"]
+# long names that differ only after a long common prefix (a metric and its pre-experiment covariate, ...)
+LONG = ["revenue_per_user_in_the_thirty_days_" + "x" * 30 + suffix for suffix in
+        ("_before_the_experiment", "_during_the_experiment", "_after_the_experiment", "_before_the_experiment_capped")]
 
 
 def rand_request(rng, cols=COLS):
@@ -91,7 +94,7 @@ def correspondence(ctx):
 # ------------------------------------------------------------------ X: real backends vs exact statistics
 def rand_table(rng, n_variants, id_kind):
     ids = {"int": [0, 1, 2, 3], "str": ["a", "b", "c", "d"], "bool": [False, True]}[id_kind][:n_variants]
-    style = rng.choice(["ints", "floats", "offset", "ties", "mixed"])
+    style = rng.choice(["ints", "floats", "offset", "ties", "mixed", "tiny"])
     off = rng.choice([10**6, 10**9, 10**12]) if style == "offset" else 0
     data = {"variant": [], **{c: [] for c in COLS}, "junk": []}
     for v in ids:
@@ -102,6 +105,8 @@ def rand_table(rng, n_variants, id_kind):
                     x = rng.randint(-5, 30)
                 elif style == "ties":
                     x = rng.choice([1, 1, 2, 5])
+                elif style == "tiny":      # a genuine spread far below 1e-8 (exactly representable values)
+                    x = rng.randint(-50, 50) * 2.0 ** -40
                 else:
                     x = rng.randint(-1000, 1000) / 8.0 + off
                 data[c].append(x)
@@ -222,6 +227,8 @@ def oracle(ctx, deep=False):
                 "rechunk": ctx.rng.random() < 0.5}
         if ctx.rng.random() < 0.3:
             case["names"] = dict(zip(COLS, ctx.rng.sample(EXOTIC, len(COLS))))
+        elif ctx.rng.random() < 0.15:
+            case["names"] = dict(zip(COLS, ctx.rng.sample(LONG, len(COLS))))
         case["request"]["cov_cols"] = [list(p) for p in case["request"]["cov_cols"]]
         fails = check_backend(case)
         ctx.evaluations += 1
